@@ -991,3 +991,33 @@ func isFailureForm(req Req, resp []byte) bool {
 	}
 	return failureForm(req.Op, resp)
 }
+
+// AbstractKey canonicalises the protocol-relevant state of the connection as the reference model sees it.
+// Used to merge histories in the deep explicit-state search (a wrong merge can only lose coverage).
+func (m *Model) AbstractKey() string {
+	var b strings.Builder
+	if m.cwd == nil {
+		b.WriteString("cwd:-")
+	} else {
+		fmt.Fprintf(&b, "cwd:%s|%v|%v|%v", m.cwd.real, keysAll(m.cwd.remaining), m.cwd.fuzzy, m.cwd.optional)
+	}
+	switch {
+	case m.ro == nil:
+		b.WriteString(";ro:-")
+	case m.ro.undefined:
+		b.WriteString(";ro:undef")
+	default:
+		fmt.Fprintf(&b, ";ro:%s", m.ro.desc)
+	}
+	fmt.Fprintf(&b, ";wo:%s;opt:%v", m.wo, m.roOptional)
+	return b.String()
+}
+
+func keysAll(m map[string]bool) []string {
+	var k []string
+	for s := range m {
+		k = append(k, s)
+	}
+	sort.Strings(k)
+	return k
+}
